@@ -479,7 +479,7 @@ def c17(tier, seed):
     return dict(
         stages=[Stage('docparams', mc=('BindingMC', 'BindingDoc_%s.cfg' % t), emit=('BindingMC', 'BindingDoc_%s_emit.cfg' % t),
                       driver='binding', trace=('BindingTrace', 'BindingTrace.cfg'),
-                      deviations={'ViewSelfDocumented': 'BindingTrace_dev_ViewSelfDocumented.cfg'}, sanity_events=('Direct',),
+                      sanity_events=('Direct',),
                       nontrivial=lambda tr: sum(1 for e in tr['ev'] if e['ev'] == 'Doc') == 2 and any(e['ev'] == 'Exec' for e in tr['ev'])), twins_stage(t)],
         rule='(plus: look-alike methods on one dispatcher in every call order - what binds does not depend on earlier requests) all signatures of <= %d parameters over positional-or-keyword / keyword-only kinds x defaults x context parameter (by '
              'name at each position, first positional, view constructor) or a defaulted parameter removed by the exclusion '
